@@ -281,56 +281,74 @@ Qed.
 Lemma cap_is_false : forall x, cap_is false x = true <-> x = None.
 Proof. destruct x; simpl; split; intros; congruence. Qed.
 
-Lemma has_jobs_spec : forall st i tx key p, has_jobs st i tx key p = true <->
-  (exists m, In m (mem st) /\ mi m = i /\ mkey m = key /\ cap_is p (mcap m) = true) \/
+Lemma has_jobs_spec : forall c st i tx key p, has_jobs c st i tx key p = true <->
+  (qmem c = true /\ exists m, In m (mem st) /\ mi m = i /\ mkey m = key /\ cap_is p (mcap m) = true) \/
   (exists r, In r (visible st tx) /\ rkey r = key /\ cap_is p (rcap r) = true).
 Proof.
-  intros. unfold has_jobs. rewrite orb_true_iff, !existsb_exists. split.
-  - intros [[m [Hm H]]|[r [Hr H]]].
-    + left. exists m. rewrite !andb_true_iff, !Nat.eqb_eq in H. tauto.
+  intros. unfold has_jobs. rewrite orb_true_iff, andb_true_iff, !existsb_exists. split.
+  - intros [[Hq [m [Hm H]]]|[r [Hr H]]].
+    + left. split; auto. exists m. rewrite !andb_true_iff, !Nat.eqb_eq in H. tauto.
     + right. exists r. rewrite andb_true_iff, Nat.eqb_eq in H. tauto.
-  - intros [[m [Hm H]]|[r [Hr H]]].
-    + left. exists m. rewrite !andb_true_iff, !Nat.eqb_eq. tauto.
+  - intros [[Hq [m [Hm H]]]|[r [Hr H]]].
+    + left. split; auto. exists m. rewrite !andb_true_iff, !Nat.eqb_eq. tauto.
     + right. exists r. rewrite andb_true_iff, Nat.eqb_eq. tauto.
 Qed.
 
-(* exact on the rows the caller can see, provided the instance holds no in-memory
-   copy of a not-yet-captured job with that key *)
-Lemma pending_query_exact : forall st i tx key,
-  (forall m, In m (mem st) -> mi m = i -> mkey m = key -> mcap m <> None) ->
-  (has_jobs st i tx key false = true <->
+(* exact on the rows the caller can see, provided the answer does not come from memory: either the
+   code asks the store only, or the instance holds no in-memory copy of an uncaptured job with that key *)
+Lemma pending_query_exact : forall c st i tx key,
+  (qmem c = false \/ forall m, In m (mem st) -> mi m = i -> mkey m = key -> mcap m <> None) ->
+  (has_jobs c st i tx key false = true <->
    exists r, In r (visible st tx) /\ rkey r = key /\ rcap r = None).
 Proof.
-  intros st i tx key Hmem. rewrite has_jobs_spec. split.
-  - intros [[m [Hm [H1 [H2 H3]]]]|[r [Hr [H1 H2]]]].
-    + exfalso. apply cap_is_false in H3. eapply Hmem; eauto.
+  intros c st i tx key Hmem. rewrite has_jobs_spec. split.
+  - intros [[Hq [m [Hm [H1 [H2 H3]]]]]|[r [Hr [H1 H2]]]].
+    + exfalso. apply cap_is_false in H3. destruct Hmem as [Hmem|Hmem]. congruence. eapply Hmem; eauto.
     + exists r. apply cap_is_false in H2. auto.
   - intros [r [Hr [H1 H2]]]. right. exists r. repeat split; auto. apply cap_is_false. auto.
 Qed.
 
 (* never misses a waiting job *)
-Lemma pending_query_complete : forall st i tx key r,
-  In r (visible st tx) -> rkey r = key -> rcap r = None -> has_jobs st i tx key false = true.
+Lemma pending_query_complete : forall c st i tx key r,
+  In r (visible st tx) -> rkey r = key -> rcap r = None -> has_jobs c st i tx key false = true.
 Proof.
   intros. apply has_jobs_spec. right. exists r. repeat split; auto. apply cap_is_false. auto.
 Qed.
 
 (* ---- witnesses ---- *)
 
-Definition cfg0 : cfg := mkCfg 60 30 None.
+Definition cfg0 : cfg := mkCfg 60 30 None true.
 
 (* the in-memory copy of a job whose transaction rolled back is still reported as pending *)
-Lemma pending_query_refuted :
-  exists c steps i key,
-    let st := run c steps init in
-    has_jobs st i None key false = true /\
-    (forall r, In r (visible st None) -> rkey r <> key) /\
-    (exists j, In j (rolled st) /\ In (mkMem i j key None) (mem st)).
+Definition phantom_steps : list ev := [Persist 0%nat 0%nat 5 1%nat; Rollback 0%nat].
+
+Lemma pending_query_refuted : forall p t b,
+  let c := mkCfg p t b true in
+  let st := run c phantom_steps init in
+  has_jobs c st 0%nat None 1%nat false = true /\
+  (forall r, In r (visible st None) -> rkey r <> 1%nat) /\
+  (exists j, In j (rolled st) /\ In (mkMem 0%nat j 1%nat None) (mem st)).
 Proof.
-  exists cfg0, [Persist 0%nat 0%nat 5 1%nat; Rollback 0%nat], 0%nat, 1%nat.
-  cbv zeta. split; [vm_compute; reflexivity|]. split.
-  - vm_compute. tauto.
-  - exists 0%nat. vm_compute. auto.
+  intros p t b. cbv zeta. split; [reflexivity|]. split.
+  - simpl. tauto.
+  - exists 0%nat. simpl. auto.
+Qed.
+
+(* what holds for the variant the code was translated to (flag = Gen/SchedQuery.v query_uses_memory) *)
+Lemma pending_query_status : forall flag : bool,
+  (flag = false /\ forall p t b st i tx key,
+     has_jobs (mkCfg p t b flag) st i tx key false = true <->
+     exists r, In r (visible st tx) /\ rkey r = key /\ rcap r = None) \/
+  (flag = true /\ forall p t b,
+     let c := mkCfg p t b flag in
+     let st := run c phantom_steps init in
+     has_jobs c st 0%nat None 1%nat false = true /\
+     (forall r, In r (visible st None) -> rkey r <> 1%nat) /\
+     (exists j, In j (rolled st) /\ In (mkMem 0%nat j 1%nat None) (mem st))).
+Proof.
+  intros [|].
+  - right. split; auto. exact pending_query_refuted.
+  - left. split; auto. intros. apply pending_query_exact. left. reflexivity.
 Qed.
 
 (* without the timeliness hypothesis a job can run twice: the capturing process dies
